@@ -15,7 +15,7 @@ STANDING_ASSUMPTIONS = list(TRUSTED_BASE) + [
     "extraction is mechanical (tools/extract, rules R1-R16 logged per run in coverage.verus.rewrite_samples); spans and token spacing are dropped",
     "R13: iter().enumerate().map(F).fold(I,G), iter().filter(P).count() and a filter adaptor consumed once by a quote! repetition mean the index loops they are rewritten to (closures verbatim); laziness of filter is dropped",
     "R16: the bodies of three helper-function quotes of <JoinOutput as ToTokens>::to_tokens (tokio spawn helper, inspect helper, thread-builder helper) are left unspecified (uninterpreted functions of the names they interpolate); only WHETHER and WHERE each is emitted is under contract",
-    "to_tokens / generate_steps / generate_step are verified under jo_wf (field lengths agree, every branch has >= 1 step, chains[b] has depths[b] non-empty steps the parser can produce). The block of JoinOutput::new that fills the fields is PROVED to establish it (new_fields, R15 block lifting) from two facts about its inputs that are not machine-checked end to end: (i) the guard chain in front of it rejects zero branches (new_guards proves the guard expression, the if/else glue is read off the code); (ii) branch_steps_ok for every parsed branch - its depth clause is proved from the builder's contract (lemma_accepted_chain_never_underflows), its per-action clause is proved per parse_stream call but not carried through the builder's loop",
+    "to_tokens / generate_steps / generate_step are verified under jo_wf (field lengths agree, every branch has >= 1 step, chains[b] has depths[b] non-empty steps the parser can produce). JoinOutput::new is PROVED as a whole to establish it (guard chain + R15 block call-out to new_fields) from branch_steps_ok of every parsed branch, and branch_steps_ok is PROVED from the postcondition of build_from_parse_stream (balanced + members_ok) by lemma_accepted_branch. Still not machine-checked between those contracts: (i) JoinInputDefault::parse / generate_join hand exactly the builder's chains to JoinOutput::new (unless listed as verified below); (ii) the `next` group of ActionGroup::parse_action_expr's result is the one the unit parser (parse_until, suffix verified) produced - the macro-generated unit parsers in between are an ASSUMED contract",
     "machine integers: usize arithmetic in contracted functions is checked for overflow by Verus where it occurs",
 ]
 
